@@ -261,6 +261,10 @@ func (e *Exec) tr(x SExpr, env *SpecEnv) TV {
 		i := e.tr(x.I, env)
 		switch u := types.Unalias(b.Ty).Underlying().(type) {
 		case *types.Slice:
+			if isObjElem(u.Elem()) {
+				// element of a slice of structs: denoted by the pointer to the element object
+				return TV{e.elemRef(b.T, i.T), types.NewPointer(u.Elem())}
+			}
 			key := elemKey(u.Elem())
 			e.heapInit(key, u.Elem())
 			m := e.heapMetas[key]
